@@ -212,7 +212,7 @@ pub fn run(ctx: &Ctx) {
          Distinct = distinct case JSON.",
     );
     ctx.assume("no order between values of different kinds (or involving NaN) is documented, so such pairs are exempt from position checks but must still be present");
-    ctx.run_part("sorted_paginated_queries", ctx.cases(2500, 60_000), || tape_strategy(400).prop_map(|t| decode(&t)), |c, o| check(ctx, c, o));
+    ctx.run_part("sorted_paginated_queries", ctx.cases(12_000, 180_000), || tape_strategy(400).prop_map(|t| decode(&t)), |c, o| check(ctx, c, o));
 }
 
 pub fn replay(ctx: &Ctx, part: &str, case: &J) -> Option<Result<CheckResult, String>> {
